@@ -276,7 +276,7 @@ func run(cfg *hx.RunCfg) (*hx.Result, error) {
 	res.Imports = []string{"Lib.Bytes", "History", "Corr.C02"} // Lib.Bytes defines `mismatches`
 	res.CaseType = "c02case"
 	res.Checker = "c02_check"
-	res.Rule = "one evaluation = one run: 2-4 (stress: 3-5) transactions, each in its own goroutine with its own B-tree handle, over one pre-populated unique int->string store on the filesystem backend (slot 4 / 12 keys = several leaf nodes, or slot 8 / few keys = one node); programs (get / add / update / remove mixes: read-modify-write, blind writes, read-only in ForReading and ForWriting mode, write-skew shapes over different leaves, multi-key readers against multi-node writers, 10-20 % rollbacks, some malformed reader programs that write) and schedules come from the seed; tiers: deterministic named corpus (the known windows, gated at single storage/cache calls), scheduled runs (a schedule releases one gated call of one transaction at a time), unscheduled stress rounds; initial and final content are read by a fresh OS process; distinct = distinct recorded history (initial content, per transaction the calls with the answers given and the commit outcome, final content); non-trivial = at least two committed transactions touching a common key that one of them wrote"
+	res.Rule = "one evaluation = one run: 2-4 (stress: 3-5) transactions, each in its own goroutine with its own B-tree handle, over one pre-populated unique int->string store on the filesystem backend (slot 4 / 12 keys = several leaf nodes, or slot 8 / few keys = one node); programs (get / add / update / remove mixes: read-modify-write, blind writes, read-only in ForReading and ForWriting mode, write-skew shapes over different leaves, multi-key readers against multi-node writers, 10-20 % rollbacks, some malformed reader programs that write; only ~15 % of the random runs may contain lookups that can fail - Get/Update/Remove of a possibly absent key, Add of a possibly present key - because those reproduce the known untracked-lookup defects without any special interleaving; in the other runs no operation can return not-found/false in any serial execution) and schedules come from the seed; tiers: deterministic named corpus (the known windows, gated at single storage/cache calls), scheduled runs (a schedule releases one gated call of one transaction at a time), unscheduled stress rounds; initial and final content are read by a fresh OS process; distinct = distinct recorded history (initial content, per transaction the calls with the answers given and the commit outcome, final content); non-trivial = at least two committed transactions touching a common key that one of them wrote"
 	r := &runner{res: res, cfg: cfg, start: time.Now(), notes: map[string]int{}}
 	os.MkdirAll(scratchRoot, 0o755)
 	if !debug {
